@@ -159,6 +159,44 @@ def emits_nothing(term):
     return term[:1] == ["Seq"] and all(emits_nothing(c) for c in term[1:])
 
 
+def loop_tail(term, path):
+    """is the sub-term at `path` in tail position of a loop body (last statement of the body, or of an arm of a
+    conditional that is itself in tail position)?  There the statement's block is followed only by the loop's
+    back edge."""
+    tail = False
+    t = term
+    mode = None
+    for depth, k in enumerate(path):
+        tag = t[0] if isinstance(t, list) and t and isinstance(t[0], str) else None
+        if mode == "pairs":
+            mode = "pair"       # t is the list of (condition, arm) pairs, k selects one
+            t = t[k]
+            continue
+        if mode == "pair":
+            mode = None         # t is one pair: index 0 is the condition, index 1 the arm
+            if k == 0:
+                tail = False
+            t = t[k]
+            continue
+        if tag in ("Cond", "IfChain"):
+            if k == 1:
+                mode = "pairs"
+            t = t[k]            # k == 2: the else arm of an IfChain keeps the tail flag
+            continue
+        if tag == "While":
+            tail = (k == 2)
+        elif tag == "For":
+            tail = (k == 4)
+        elif tag == "Seq":
+            tail = tail and k == len(t) - 1
+        elif tag == "If":
+            tail = tail and k >= 2
+        else:
+            tail = False
+        t = t[k]
+    return tail
+
+
 def get_at(term, path):
     for k in path:
         term = term[k]
@@ -183,6 +221,11 @@ def wrap_at(term, path, fn):
 def annotate(kind, text):
     if kind == "comment":
         return lambda e: ["Comment", text, e]
+    if kind == "comment_after":
+        # a Comment as a statement of its own behind the statement (also behind Return / Approve / Reject / Err)
+        return lambda e: ["Seq", e, ["CommentS", text]]
+    if kind == "comment_before":
+        return lambda e: ["Seq", ["CommentS", text], e]
     if kind == "pragma":
         return lambda e: ["Pragma", e]
     if kind == "nonce16":
@@ -230,7 +273,9 @@ def check_variant(base_prog, base_text, ann_prog, cfg, out, meta, nonce=None):
             "recipe": ann_prog, "base": base_prog, "cfg": cfg.to_json(), "meta": meta, "teal": text, "base_teal": base_text,
             "features": {"kind": meta["kind"], "why": why.split(":")[0][:40],
                          "text_has_newline": "\n" in meta.get("text", ""),
-                         "wrapped_is_empty_seq": bool(meta.get("wrapped_is_empty_seq"))},
+                         "wrapped_is_empty_seq": bool(meta.get("wrapped_is_empty_seq")),
+                         "standalone_comment": bool(meta.get("standalone_comment")),
+                         "loop_tail": bool(meta.get("loop_tail"))},
         })
 
 
@@ -245,6 +290,9 @@ def _worker(items, base):
                 meta = {"kind": kind, "text": text, "path": list(path) if path is not None else None}
                 if path is not None:
                     meta["wrapped_is_empty_seq"] = emits_nothing(get_at(prog["main"], path))
+                    if kind in ("comment_after", "comment_before"):
+                        meta["standalone_comment"] = True
+                        meta["loop_tail"] = loop_tail(prog["main"], path)
                 if kind == "subname":
                     ann = copy.deepcopy(prog)
                     for sd in ann["subs"].values():
@@ -289,6 +337,15 @@ def base_programs(tier):
         if n < 2 or gen_ctrl.has_unreachable(b):
             continue
         progs.append(gen_ctrl.make_program(b, "implicit"))
+    # a guard arm that ends the program, followed by more work (the arm's successor is not laid out next to it)
+    cin = ["Eq", ["Btoi", ["Arg", 0]], ["Int", 1]]
+    for term in (["Reject"], ["Err"], ["Approve"]):
+        for follow in (["If", ["Int", 1], ["Seq", ["TickS", 1]]],
+                       ["If", cin, ["Seq", ["TickS", 1]], ["Seq", ["TickS", 2]]],
+                       ["While", ["Lt", ["Load", "ctr"], ["Int", 1]], ["Seq", ["Store", "ctr", ["Int", 1]]]]):
+            progs.append({"mode": "A", "vars": {"ctr": "u", "i": "u"}, "subs": {},
+                          "main": ["Seq", ["Store", "ctr", ["Int", 0]], ["If", cin, ["Seq", term]], follow,
+                                   ["Add", ["Load", "ctr"], ["Int", 1]]]})
     sub = {"params": [["x", "val"]], "ret": "u", "body": ["Seq", ["Assert", ["Load", "x"]], ["Return", ["Add", ["Load", "x"], ["Int", 1]]]],
            "locals": [], "init_locals": False}
     progs.append({"mode": "A", "vars": {}, "subs": {"f": sub},
@@ -333,6 +390,9 @@ def run(tier):
         for path in pos:
             for t in NASTY + ["plain"]:
                 vs.append(("comment", t, path))
+            for t in ("plain", "a\nint 0 // b"):
+                vs.append(("comment_after", t, path))
+                vs.append(("comment_before", t, path))
             vs.append(("pragma", "", path))
             for kind, pl in payloads.items():
                 for t in pl:
